@@ -191,7 +191,7 @@ theorem C17_backup_stores (s : Server) (b : Backup) (p big : Bool) :
         s.backupConfigured = true ∧ s.ftpc = some .running ∧
         (backupDatabase s b p big).2.1.stored = s.file ∧ s.file.isSome) ∧
     ((backupDatabase s b p big).2.2 = false → (backupDatabase s b p big).2.1 = b) := by
-  unfold backupDatabase Server.ftpcAct
+  unfold backupDatabase ftpSendFile Server.ftpcAct
   by_cases hc : s.canAct = true
   · by_cases hb : s.backupConfigured = true
     · cases hft : s.ftpc with
@@ -211,66 +211,116 @@ theorem C17_backup_stores (s : Server) (b : Backup) (p big : Bool) :
     · simp [hc, hb]
   · simp [hc]
 
-/-- A successful restore needs the service able to act, a configured backup server, an installed FTP client, the request
-path open, the backup host serving, a stored copy, and the backup host's link taking the file; the restored content is
-the (never overwritten) file under downloads/ if there is one, else the backup — which only arrives over an open answer
-path and a running FTP client. -/
+set_option linter.unusedSimpArgs false in
+/-- `restore_backup` in closed form: the three guards; then the copy arrives iff the request path is open, the backup host
+serves, its link takes the file, the answer path is open and the FTP client is RUNNING (and the backup host stores a copy);
+then downloads/ and the live file hold that copy and the service is GOOD; otherwise the only traces are the removed
+leftover and the FTP client's connection bookkeeping. -/
+theorem restoreBackup_closed (s : Server) (b : Backup) (pq pr k : Bool) :
+    restoreBackup s b pq pr k =
+      if !s.canAct || !s.backupConfigured || s.ftpc.isNone then (s, false)
+      else match b.stored with
+        | some bh =>
+          if pq && b.serves && k && pr && s.ftpcAct then
+            ({ s with ftpConn := true, downloads := some bh, dlFolder := true, file := some bh, folder := true, health := .good }, true)
+          else ({ s with downloads := none, ftpConn := s.ftpConn || (s.ftpcAct && pq && b.serves) }, false)
+        | none => ({ s with downloads := none, ftpConn := s.ftpConn || (s.ftpcAct && pq && b.serves) }, false) := by
+  unfold restoreBackup ftpRequestFile Server.ftpcAct
+  cases hc : s.canAct <;> cases hbc : s.backupConfigured <;> cases hft : s.ftpc <;> simp [hc, hbc, hft]
+  rename_i f
+  cases pq <;> cases hbs : b.serves <;> cases hs : b.stored <;> cases k <;> cases hq : s.ftpConn <;> cases pr <;> cases f <;>
+    simp [hbs, hs, hq]
+
+/-- A restore reports success ONLY when the file really came over the network in this call: the service can act, a
+backup server is configured, the request path is open, the backup host serves, it stores a copy, its link takes the file,
+the answer path is open and the FTP client on the database host is RUNNING; and then the live database file, and the
+copy under downloads/, are exactly what the backup host stores, and the service is GOOD.  Nothing in this statement
+mentions what was lying under downloads/ before (`C17_restore_ignores_leftovers`). -/
 theorem C17_restore_result (s : Server) (b : Backup) (pq pr k : Bool) (hok : (restoreBackup s b pq pr k).2 = true) :
-    ∃ h, (restoreBackup s b pq pr k).1.file = some h ∧ (restoreBackup s b pq pr k).1.health = .good ∧
-      (s.downloads = some h ∨ (s.downloads = none ∧ pr = true ∧ s.ftpc = some .running ∧ b.stored = some h)) ∧
-      s.canAct = true ∧ s.backupConfigured = true ∧ pq = true ∧ b.serves = true ∧ k = true ∧ b.stored.isSome := by
-  unfold restoreBackup Server.ftpcAct at hok ⊢
+    ∃ h, b.stored = some h ∧ (restoreBackup s b pq pr k).1.file = some h ∧ (restoreBackup s b pq pr k).1.health = .good ∧
+      (restoreBackup s b pq pr k).1.downloads = some h ∧
+      s.canAct = true ∧ s.backupConfigured = true ∧ pq = true ∧ b.serves = true ∧ k = true ∧ pr = true ∧
+      s.ftpcAct = true := by
+  unfold restoreBackup ftpRequestFile Server.ftpcAct at hok ⊢
   cases hc : s.canAct <;> cases hbc : s.backupConfigured <;> cases hft : s.ftpc <;> simp [hc, hbc, hft] at hok ⊢
   rename_i f
   cases pq <;> cases hbs : b.serves <;> cases hs : b.stored <;> cases k <;> cases hq : s.ftpConn <;>
     simp [hbs, hs, hq] at hok ⊢
-  all_goals (cases hd : s.downloads <;> cases pr <;> cases f <;> simp_all)
+  all_goals (cases pr <;> cases f <;> simp_all)
 
-/-- `restore_good`: a successful restore with no stale file under downloads/ makes the database file exactly what the
-backup host stores and the service GOOD. -/
+/-- `restore_good`: a successful restore makes the database file exactly what the backup host stores and the service
+GOOD - whatever was under downloads/ before. -/
 theorem C17_restore_yields_backup (s : Server) (b : Backup) (pq pr k : Bool)
-    (hd : s.downloads = none) (hok : (restoreBackup s b pq pr k).2 = true) :
+    (hok : (restoreBackup s b pq pr k).2 = true) :
     (restoreBackup s b pq pr k).1.file = b.stored ∧ (restoreBackup s b pq pr k).1.health = .good := by
-  obtain ⟨h, hf, hg, hsrc, _⟩ := C17_restore_result s b pq pr k hok
-  refine ⟨?_, hg⟩
-  rcases hsrc with hsrc | ⟨_, _, _, hsrc⟩
-  · rw [hd] at hsrc; cases hsrc
-  · rw [hf, hsrc]
+  obtain ⟨h, hst, hf, hg, _⟩ := C17_restore_result s b pq pr k hok
+  exact ⟨by rw [hf, hst], hg⟩
+
+/-- **Leftovers under downloads/ do not matter.**  Whatever `downloads/database.db` holds before the call (nothing, the
+copy of an earlier restore, a planted or damaged file), the outcome, the database file, the service health and the copy
+left under downloads/ afterwards are the same.  (Finding F-C17-2: before the repair a leftover was restored instead of
+the backup.) -/
+theorem C17_restore_ignores_leftovers (s : Server) (b : Backup) (pq pr k : Bool) (d : Option FHealth) (f : Bool) :
+    (restoreBackup { s with downloads := d, dlFolder := f } b pq pr k).2 = (restoreBackup s b pq pr k).2 ∧
+    (restoreBackup { s with downloads := d, dlFolder := f } b pq pr k).1.file = (restoreBackup s b pq pr k).1.file ∧
+    (restoreBackup { s with downloads := d, dlFolder := f } b pq pr k).1.health = (restoreBackup s b pq pr k).1.health ∧
+    (restoreBackup { s with downloads := d, dlFolder := f } b pq pr k).1.conns = (restoreBackup s b pq pr k).1.conns ∧
+    ((restoreBackup s b pq pr k).2 = true →
+      (restoreBackup { s with downloads := d, dlFolder := f } b pq pr k).1 = (restoreBackup s b pq pr k).1) := by
+  rw [restoreBackup_closed, restoreBackup_closed]
+  have e1 : Server.canAct { s with downloads := d, dlFolder := f } = s.canAct := rfl
+  have e2 : Server.ftpcAct { s with downloads := d, dlFolder := f } = s.ftpcAct := rfl
+  simp only [e1, e2]
+  cases hg : (!s.canAct || !s.backupConfigured || s.ftpc.isNone)
+  · cases hs : b.stored with
+    | none => simp
+    | some bh => cases hx : (pq && b.serves && k && pr && s.ftpcAct) <;> simp
+  · simp
 
 /-- A restore that fails — whatever the reason: service not running, request or answer path closed, backup host off,
-FTP server stopped, nothing stored — leaves the server as it was, up to the FTP client's connection bookkeeping; in
-particular the live database file is kept.  (Finding F-33: before the repair the live file was deleted when the backup
-copy did not arrive over a closed answer path.) -/
+FTP server stopped, FTP client not running, nothing stored, a saturated link — leaves the server as it was, up to the
+FTP client's connection bookkeeping and the leftover under downloads/ (which a restore that got as far as asking the
+backup server has removed); in particular the live database file, the service health and the connection table are
+kept.  (Finding F-33: before that repair the live file was deleted when the backup copy did not arrive.) -/
 theorem C17_failed_restore_changes_nothing (s : Server) (b : Backup) (pq pr k : Bool)
     (h : (restoreBackup s b pq pr k).2 = false) :
-    (restoreBackup s b pq pr k).1 = { s with ftpConn := (restoreBackup s b pq pr k).1.ftpConn } := by
+    (restoreBackup s b pq pr k).1 = { s with ftpConn := (restoreBackup s b pq pr k).1.ftpConn,
+                                             downloads := (restoreBackup s b pq pr k).1.downloads } ∧
+    ((restoreBackup s b pq pr k).1.downloads = s.downloads ∨ (restoreBackup s b pq pr k).1.downloads = none) := by
   revert h
-  cases pr <;> cases k <;> unfold restoreBackup <;> dsimp only <;> (repeat' split) <;> intro h <;>
-    first | rfl | (cases s; simp_all) | simp_all
+  rw [restoreBackup_closed]
+  cases hg : (!s.canAct || !s.backupConfigured || s.ftpc.isNone)
+  · cases hs : b.stored with
+    | none => simp
+    | some bh => cases hx : (pq && b.serves && k && pr && s.ftpcAct) <;> simp
+  · simp
 
-/-- End to end: back up while GOOD, damage the data in any way the model knows, restore: GOOD again. -/
+/-- End to end: back up while GOOD, then let the server get into ANY state `s'` (damage, leftovers, earlier restores):
+a restore that reports success makes the file GOOD again. -/
 theorem C17_restore_good (s : Server) (b : Backup) (p big pq pr k : Bool) (s' : Server)
     (hgood : s.file = some .good) (hbk : (backupDatabase s b p big).2.2 = true)
-    (hdl : s'.downloads = none ∨ s'.downloads = some .good)
     (hok : (restoreBackup s' (backupDatabase s b p big).2.1 pq pr k).2 = true) :
     (restoreBackup s' (backupDatabase s b p big).2.1 pq pr k).1.file = some .good ∧
     (restoreBackup s' (backupDatabase s b p big).2.1 pq pr k).1.health = .good := by
   have hb := (C17_backup_stores s b p big).1 hbk
   have hst : (backupDatabase s b p big).2.1.stored = some .good := by rw [hb.2.2.2.2.2.2.2.1, hgood]
-  obtain ⟨h, hf, hg, hsrc, _⟩ := C17_restore_result s' _ pq pr k hok
-  refine ⟨?_, hg⟩
-  rw [hf]
-  rcases hsrc with hsrc | ⟨_, _, _, hsrc⟩
-  · rcases hdl with hdl | hdl
-    · rw [hdl] at hsrc; cases hsrc
-    · rw [hdl] at hsrc; exact hsrc.symm
-  · rw [hst] at hsrc; exact hsrc.symm
+  have hy := C17_restore_yields_backup s' _ pq pr k hok
+  exact ⟨by rw [hy.1, hst], hy.2⟩
 
 example :
     let s : Server := {}
     let r := backupDatabase s ({} : Backup) true
     let dmg := (processSql r.1 .delete).1
-    (restoreBackup dmg r.2.1 true true) = ({ dmg with file := some .good, downloads := some .good, ftpConn := true }, true) := by decide
+    (restoreBackup dmg r.2.1 true true) =
+      ({ dmg with file := some .good, downloads := some .good, dlFolder := true, ftpConn := true }, true) := by decide
+/-- a second restore over a CORRUPT leftover still yields the (GOOD) backup -/
+example :
+    let s : Server := {}
+    let r := backupDatabase s ({} : Backup) true
+    let s1 := (restoreBackup (processSql r.1 .delete).1 r.2.1 true true).1
+    let s2 := (processSql (s1.dl .corrupt).1 .delete).1
+    s2.downloads = some .corrupt ∧ (restoreBackup s2 r.2.1 true true).2 = true ∧
+      (restoreBackup s2 r.2.1 true true).1.file = some .good := by decide
 
 /-- **No backup server configured** (`backup_server_ip` None): backup and restore answer False and change nothing. -/
 theorem C17_unconfigured_backup_restore (s : Server) (h : s.backupConfigured = false) (b : Backup) (pq pr big k : Bool) :
@@ -279,13 +329,12 @@ theorem C17_unconfigured_backup_restore (s : Server) (h : s.backupConfigured = f
   cases hc : s.canAct <;> simp [h]
 
 /-- **No FTP client on the database host** (uninstalled): backup and restore answer False and change nothing. With an
-FTP client that cannot act (stopped, paused, disabled) a backup is impossible, and a restore can only succeed from a stale
-copy already under downloads/ (RETR is sent without asking the FTP client, the answer is not stored). -/
+FTP client that cannot act (stopped, paused, disabled, restarting) a backup is impossible and a restore fails, too: RETR is
+still sent (it does not ask the FTP client), but the answer is not stored, and no leftover is accepted in its place. -/
 theorem C17_ftp_client_needed (s : Server) (b : Backup) (pq pr big k : Bool) :
     (s.ftpc = none → backupDatabase s b pq big = (s, b, false) ∧ restoreBackup s b pq pr k = (s, false)) ∧
     (s.ftpc ≠ some .running → (backupDatabase s b pq big).2.2 = false ∧ (backupDatabase s b pq big).2.1 = b) ∧
-    (s.ftpc ≠ some .running → (restoreBackup s b pq pr k).2 = true →
-        ∃ d, s.downloads = some d ∧ (restoreBackup s b pq pr k).1.file = some d) := by
+    (s.ftpc ≠ some .running → (restoreBackup s b pq pr k).2 = false) := by
   refine ⟨?_, ?_, ?_⟩
   · intro h
     unfold backupDatabase restoreBackup
@@ -295,19 +344,23 @@ theorem C17_ftp_client_needed (s : Server) (b : Backup) (pq pr big k : Bool) :
     cases hr : (backupDatabase s b pq big).2.2 with
     | false => exact ⟨rfl, hb.2 hr⟩
     | true => exact absurd (hb.1 hr).2.2.2.2.2.2.1 h
-  · intro h hok
-    obtain ⟨d, hf, _, hsrc, _⟩ := C17_restore_result s b pq pr k hok
-    rcases hsrc with hsrc | ⟨_, _, hrun, _⟩
-    · exact ⟨d, hsrc, hf⟩
-    · exact absurd hrun h
+  · intro h
+    cases hr : (restoreBackup s b pq pr k).2 with
+    | false => rfl
+    | true =>
+      obtain ⟨_, _, _, _, _, _, _, _, _, _, _, hrun⟩ := C17_restore_result s b pq pr k hr
+      exfalso; apply h
+      simpa [Server.ftpcAct] using hrun
 
 /-- **Saturated link.**  When a link refuses the frame that carries the file, a backup stores nothing and answers False;
 a restore whose file is refused by the backup host's own link answers False and leaves the server as it was (up to the
-FTP client's connection bookkeeping); refused further down it behaves like a blocked answer path (`pr = false`). -/
+FTP client's connection bookkeeping and the removed leftover); refused further down it behaves like a blocked answer
+path (`pr = false`). -/
 theorem C17_saturated_transfer (s : Server) (b : Backup) (pq pr : Bool) :
     ((backupDatabase s b pq false).2.2 = false ∧ (backupDatabase s b pq false).2.1 = b) ∧
     ((restoreBackup s b pq pr false).2 = false ∧
-      (restoreBackup s b pq pr false).1 = { s with ftpConn := (restoreBackup s b pq pr false).1.ftpConn }) := by
+      (restoreBackup s b pq pr false).1 = { s with ftpConn := (restoreBackup s b pq pr false).1.ftpConn,
+                                                   downloads := (restoreBackup s b pq pr false).1.downloads }) := by
   have hb := C17_backup_stores s b pq false
   have h1 : (backupDatabase s b pq false).2.2 = false := by
     cases hr : (backupDatabase s b pq false).2.2 with
@@ -317,9 +370,9 @@ theorem C17_saturated_transfer (s : Server) (b : Backup) (pq pr : Bool) :
     cases hr : (restoreBackup s b pq pr false).2 with
     | false => rfl
     | true =>
-      obtain ⟨_, _, _, _, _, _, _, _, hk, _⟩ := C17_restore_result s b pq pr false hr
+      obtain ⟨_, _, _, _, _, _, _, _, _, hk, _⟩ := C17_restore_result s b pq pr false hr
       exact absurd hk (by decide)
-  exact ⟨⟨h1, hb.2 h1⟩, h2, C17_failed_restore_changes_nothing s b pq pr false h2⟩
+  exact ⟨⟨h1, hb.2 h1⟩, h2, (C17_failed_restore_changes_nothing s b pq pr false h2).1⟩
 
 /-! ## 5. Unavailability: service not running, node not ON, or path blocked -/
 
@@ -350,23 +403,28 @@ theorem C17_unavailable_send (st : State) (i : Nat) (p : Payload) (h : st.srv.ca
   · simp [hr]
   · simp [hr, C17_unavailable_receive st.srv h]
 
-/-- Restore over a closed request path (or with the backup host off / its FTP server stopped) fails and changes
-nothing but the FTP client's bookkeeping. -/
-theorem C17_blocked_restore (s : Server) (b : Backup) (pq pr k : Bool) (h : (pq && b.serves) = false) :
-    (restoreBackup s b pq pr k).2 = false ∧ (restoreBackup s b pq pr k).1 = s := by
+/-- **No path, no restore.**  With the request path closed, the backup host off or its FTP server stopped, the answer path
+closed (or a link on it refusing the file), or the FTP client on the database host not running, a restore FAILS -
+whatever is lying under downloads/ and however many restores succeeded before - and the database file, the service
+health, the connection table, every other field but the FTP bookkeeping and the (possibly removed) leftover are kept. -/
+theorem C17_blocked_restore (s : Server) (b : Backup) (pq pr k : Bool)
+    (h : (pq && b.serves && pr && k && s.ftpcAct) = false) :
+    (restoreBackup s b pq pr k).2 = false ∧
+    (restoreBackup s b pq pr k).1 = { s with ftpConn := (restoreBackup s b pq pr k).1.ftpConn,
+                                             downloads := (restoreBackup s b pq pr k).1.downloads } ∧
+    (restoreBackup s b pq pr k).1.file = s.file ∧ (restoreBackup s b pq pr k).1.health = s.health ∧
+    (restoreBackup s b pq pr k).1.conns = s.conns := by
   have h2 : (restoreBackup s b pq pr k).2 = false := by
     cases hr : (restoreBackup s b pq pr k).2 with
     | false => rfl
     | true =>
-      obtain ⟨_, _, _, _, _, _, hpq, hbs, _⟩ := C17_restore_result s b pq pr k hr
-      rw [hpq, hbs] at h; cases h
-  refine ⟨h2, ?_⟩
-  have h' : ∀ x : Bool, (x && pq && b.serves) = false := by
-    intro x; cases x <;> simp_all
-  unfold restoreBackup
-  simp only [h, h', Bool.or_false, Bool.not_false, if_true]
-  cases hc : s.canAct <;> cases hbc : s.backupConfigured <;> cases hft : s.ftpc <;> simp
-  cases s; simp_all
+      obtain ⟨_, _, _, _, _, _, _, hpq, hbs, hk, hpr, hf⟩ := C17_restore_result s b pq pr k hr
+      rw [hpq, hbs, hk, hpr, hf] at h; cases h
+  have h3 := (C17_failed_restore_changes_nothing s b pq pr k h2).1
+  refine ⟨h2, h3, ?_, ?_, ?_⟩ <;> rw [h3]
+
+example : (restoreBackup ({ downloads := some .good, file := some .compromised } : Server) { stored := some .good } true false true).2 = false := by
+  decide
 
 /-- **Not listening.**  When the database service is uninstalled, or the host's (5432, tcp) port-map entry belongs to a
 co-located database client (or was removed with it), nothing a client sends reaches the service. -/
@@ -506,12 +564,13 @@ theorem C17_gen_sql :
 
 def svcReqName : SvcReq → String
   | .stop => "stop" | .start => "start" | .pause => "pause" | .resume => "resume" | .restart => "restart"
-  | .disable => "disable" | .enable => "enable" | .fix => "fix" | .compromise => "compromise"
+  | .disable => "disable" | .enable => "enable" | .fix => "fix" | .compromise => "compromise" | .scan => "scan"
 
 /-- The state a service request's validator demands, as modelled (`none` = no validator). -/
 def modelValidator : SvcReq → Option SvcState
   | .stop => some .running | .start => some .stopped | .pause => some .running | .resume => some .paused
   | .restart => some .running | .disable => none | .enable => some .disabled | .fix => some .running | .compromise => none
+  | .scan => some .running
 
 /-- Validators of the service request manager, defaults, fix acceptance, the tick at which the backup is taken. -/
 theorem C17_gen_lifecycle :
@@ -547,21 +606,27 @@ theorem C17_request_validated (s : Server) (r : SvcReq) :
 the operations permit.  The theorems below are proved for every event (hence every event sequence) and lifted to
 `run st ops` for every state `st` and every list `ops`. -/
 
-/-- What a non-`recv` event leaves alone: the connection table and the id counter. -/
+/-- What a non-`recv` event leaves alone: the connection table, the id counter, the session limit. -/
 theorem restore_frame (s : Server) (b : Backup) (pq pr k : Bool) :
     (restoreBackup s b pq pr k).1.conns = s.conns ∧ (restoreBackup s b pq pr k).1.nextId = s.nextId ∧
     (restoreBackup s b pq pr k).1.password = s.password ∧ (restoreBackup s b pq pr k).1.node = s.node ∧
-    (restoreBackup s b pq pr k).1.op = s.op := by
-  cases pr <;> cases k <;> unfold restoreBackup <;> dsimp only <;> (repeat' split) <;> first | simp | simp_all
+    (restoreBackup s b pq pr k).1.op = s.op ∧ (restoreBackup s b pq pr k).1.maxSessions = s.maxSessions := by
+  rw [restoreBackup_closed]
+  cases hg : (!s.canAct || !s.backupConfigured || s.ftpc.isNone)
+  · cases hs : b.stored with
+    | none => simp
+    | some bh => cases hx : (pq && b.serves && k && pr && s.ftpcAct) <;> simp
+  · simp
 
 theorem backup_frame (s : Server) (b : Backup) (pq big : Bool) :
     (backupDatabase s b pq big).1.conns = s.conns ∧ (backupDatabase s b pq big).1.nextId = s.nextId ∧
-    (backupDatabase s b pq big).1.file = s.file ∧ (backupDatabase s b pq big).1.password = s.password := by
-  cases big <;> unfold backupDatabase <;> dsimp only <;> (repeat' split) <;> first | simp | simp_all
+    (backupDatabase s b pq big).1.file = s.file ∧ (backupDatabase s b pq big).1.password = s.password ∧
+    (backupDatabase s b pq big).1.maxSessions = s.maxSessions := by
+  cases big <;> unfold backupDatabase ftpSendFile <;> dsimp only <;> (repeat' split) <;> first | simp | simp_all
 
 theorem request_frame (s : Server) (r : SvcReq) :
     (s.request r).1.conns = s.conns ∧ (s.request r).1.nextId = s.nextId ∧ (s.request r).1.file = s.file ∧
-    (s.request r).1.password = s.password := by
+    (s.request r).1.password = s.password ∧ (s.request r).1.maxSessions = s.maxSessions := by
   unfold Server.request
   split
   · simp
@@ -569,133 +634,201 @@ theorem request_frame (s : Server) (r : SvcReq) :
 
 theorem startUp_frame (s : Server) :
     s.startUp.conns = s.conns ∧ s.startUp.nextId = s.nextId ∧ s.startUp.file = s.file ∧ s.startUp.password = s.password ∧
-    s.startUp.node = s.node := by
+    s.startUp.node = s.node ∧ s.startUp.maxSessions = s.maxSessions := by
   unfold Server.startUp; dsimp only; split <;> simp
 
 theorem shutDown_frame (s : Server) :
     s.shutDown.conns = s.conns ∧ s.shutDown.nextId = s.nextId ∧ s.shutDown.file = s.file ∧ s.shutDown.password = s.password ∧
-    s.shutDown.node = s.node := by
+    s.shutDown.node = s.node ∧ s.shutDown.maxSessions = s.maxSessions := by
   unfold Server.shutDown; dsimp only; split <;> simp
 
 theorem tickPower_frame (s : Server) :
     s.tickPower.conns = s.conns ∧ s.tickPower.nextId = s.nextId ∧ s.tickPower.file = s.file ∧
-    s.tickPower.password = s.password := by
+    s.tickPower.password = s.password ∧ s.tickPower.maxSessions = s.maxSessions := by
   unfold Server.tickPower
   dsimp only
   split <;> split <;>
     simp [(startUp_frame _).1, (startUp_frame _).2.1, (startUp_frame _).2.2.1, (startUp_frame _).2.2.2.1,
-          (shutDown_frame _).1, (shutDown_frame _).2.1, (shutDown_frame _).2.2.1, (shutDown_frame _).2.2.2.1]
+          (startUp_frame _).2.2.2.2.2,
+          (shutDown_frame _).1, (shutDown_frame _).2.1, (shutDown_frame _).2.2.1, (shutDown_frame _).2.2.2.1,
+          (shutDown_frame _).2.2.2.2.2]
 
 theorem tickRestart_frame (s : Server) :
     s.tickRestart.conns = s.conns ∧ s.tickRestart.nextId = s.nextId ∧ s.tickRestart.file = s.file ∧
-    s.tickRestart.password = s.password := by
+    s.tickRestart.password = s.password ∧ s.tickRestart.maxSessions = s.maxSessions := by
   unfold Server.tickRestart
   split
   · split <;> simp
   · simp
 
+/-- the FTP client's own tick touches nothing but its two countdowns and its operating state -/
+theorem tickFtpc_frame (s : Server) :
+    s.tickFtpc.conns = s.conns ∧ s.tickFtpc.nextId = s.nextId ∧ s.tickFtpc.file = s.file ∧
+    s.tickFtpc.password = s.password ∧ s.tickFtpc.maxSessions = s.maxSessions ∧ s.tickFtpc.health = s.health ∧
+    s.tickFtpc.op = s.op ∧ s.tickFtpc.node = s.node ∧ s.tickFtpc.downloads = s.downloads := by
+  unfold Server.tickFtpc
+  cases s.ftpc <;> simp
+
 theorem tickFix_frame (s : Server) (b : Backup) (pq pr k : Bool) :
     (s.tickFix b pq pr k).conns = s.conns ∧ (s.tickFix b pq pr k).nextId = s.nextId ∧
-    (s.tickFix b pq pr k).password = s.password := by
+    (s.tickFix b pq pr k).password = s.password ∧ (s.tickFix b pq pr k).maxSessions = s.maxSessions := by
   unfold Server.tickFix
   split
   · split
     · have h := restore_frame { s with health := .good, fixCd := 0 } b pq pr k
-      exact ⟨h.1, h.2.1, h.2.2.1⟩
+      exact ⟨h.1, h.2.1, h.2.2.1, h.2.2.2.2.2⟩
     · simp
   · simp
 
+theorem tickSvc_frame (s : Server) (b : Backup) (t : Nat) (pq pr big k : Bool) :
+    (s.tickSvc b t pq pr big k).1.conns = s.conns ∧ (s.tickSvc b t pq pr big k).1.nextId = s.nextId ∧
+    (s.tickSvc b t pq pr big k).1.password = s.password ∧ (s.tickSvc b t pq pr big k).1.maxSessions = s.maxSessions := by
+  unfold Server.tickSvc
+  dsimp only
+  split
+  · simp
+  · split
+    · have hb := backup_frame s b pq big
+      have hf := tickFix_frame (backupDatabase s b pq big).1 (backupDatabase s b pq big).2.1 pq pr k
+      have hr := tickRestart_frame ((backupDatabase s b pq big).1.tickFix (backupDatabase s b pq big).2.1 pq pr k)
+      dsimp only
+      refine ⟨?_, ?_, ?_, ?_⟩
+      · rw [hr.1, hf.1, hb.1]
+      · rw [hr.2.1, hf.2.1, hb.2.1]
+      · rw [hr.2.2.2.1, hf.2.2.1, hb.2.2.2.1]
+      · rw [hr.2.2.2.2, hf.2.2.2, hb.2.2.2.2]
+    · have hf := tickFix_frame s b pq pr k
+      have hr := tickRestart_frame (s.tickFix b pq pr k)
+      dsimp only
+      refine ⟨?_, ?_, ?_, ?_⟩
+      · rw [hr.1, hf.1]
+      · rw [hr.2.1, hf.2.1]
+      · rw [hr.2.2.2.1, hf.2.2.1]
+      · rw [hr.2.2.2.2, hf.2.2.2]
+
 theorem serverTick_frame (s : Server) (b : Backup) (t : Nat) (pq pr big k : Bool) :
     (serverTick s b t pq pr big k).1.conns = s.conns ∧ (serverTick s b t pq pr big k).1.nextId = s.nextId ∧
-    (serverTick s b t pq pr big k).1.password = s.password := by
+    (serverTick s b t pq pr big k).1.password = s.password ∧ (serverTick s b t pq pr big k).1.maxSessions = s.maxSessions := by
   unfold serverTick
   dsimp only
   have hp := tickPower_frame s
   split
-  · exact ⟨hp.1, hp.2.1, hp.2.2.2⟩
+  · exact ⟨hp.1, hp.2.1, hp.2.2.2.1, hp.2.2.2.2⟩
   · split
-    · have hb := backup_frame s.tickPower b pq big
-      have hf := tickFix_frame (backupDatabase s.tickPower b pq big).1 (backupDatabase s.tickPower b pq big).2.1 pq pr k
-      have hr := tickRestart_frame ((backupDatabase s.tickPower b pq big).1.tickFix (backupDatabase s.tickPower b pq big).2.1 pq pr k)
+    · have hf := tickFtpc_frame s.tickPower
+      have hs := tickSvc_frame s.tickPower.tickFtpc b t pq pr big k
+      refine ⟨?_, ?_, ?_, ?_⟩
+      · rw [hs.1, hf.1, hp.1]
+      · rw [hs.2.1, hf.2.1, hp.2.1]
+      · rw [hs.2.2.1, hf.2.2.2.1, hp.2.2.2.1]
+      · rw [hs.2.2.2, hf.2.2.2.2.1, hp.2.2.2.2]
+    · have hs := tickSvc_frame s.tickPower b t pq pr big k
+      have hf := tickFtpc_frame (s.tickPower.tickSvc b t pq pr big k).1
       dsimp only
-      refine ⟨?_, ?_, ?_⟩
-      · rw [hr.1, hf.1, hb.1, hp.1]
-      · rw [hr.2.1, hf.2.1, hb.2.1, hp.2.1]
-      · rw [hr.2.2.2, hf.2.2, hb.2.2.2, hp.2.2.2]
-    · have hf := tickFix_frame s.tickPower b pq pr k
-      have hr := tickRestart_frame (s.tickPower.tickFix b pq pr k)
-      dsimp only
-      refine ⟨?_, ?_, ?_⟩
-      · rw [hr.1, hf.1, hp.1]
-      · rw [hr.2.1, hf.2.1, hp.2.1]
-      · rw [hr.2.2.2, hf.2.2, hp.2.2.2]
+      refine ⟨?_, ?_, ?_, ?_⟩
+      · rw [hf.1, hs.1, hp.1]
+      · rw [hf.2.1, hs.2.1, hp.2.1]
+      · rw [hf.2.2.2.1, hs.2.2.1, hp.2.2.2.1]
+      · rw [hf.2.2.2.2.1, hs.2.2.2, hp.2.2.2.2]
 
 theorem power_frame (s : Server) :
     s.powerOn.conns = s.conns ∧ s.powerOn.nextId = s.nextId ∧ s.powerOn.file = s.file ∧
-    s.powerOff.conns = s.conns ∧ s.powerOff.nextId = s.nextId ∧ s.powerOff.file = s.file := by
+    s.powerOff.conns = s.conns ∧ s.powerOff.nextId = s.nextId ∧ s.powerOff.file = s.file ∧
+    s.powerOn.maxSessions = s.maxSessions ∧ s.powerOff.maxSessions = s.maxSessions := by
   unfold Server.powerOn Server.powerOff
   dsimp only
   split <;> split <;>
-    simp [(startUp_frame _).1, (startUp_frame _).2.1, (startUp_frame _).2.2.1,
-          (shutDown_frame _).1, (shutDown_frame _).2.1, (shutDown_frame _).2.2.1]
+    simp [(startUp_frame _).1, (startUp_frame _).2.1, (startUp_frame _).2.2.1, (startUp_frame _).2.2.2.2.2,
+          (shutDown_frame _).1, (shutDown_frame _).2.1, (shutDown_frame _).2.2.1, (shutDown_frame _).2.2.2.2.2]
 
 theorem file_frame (s : Server) :
     s.fileDelete.1.conns = s.conns ∧ s.fileDelete.1.nextId = s.nextId ∧
     s.fileCorrupt.1.conns = s.conns ∧ s.fileCorrupt.1.nextId = s.nextId ∧
     s.fileRepair.1.conns = s.conns ∧ s.fileRepair.1.nextId = s.nextId ∧
-    s.folderDelete.1.conns = s.conns ∧ s.folderDelete.1.nextId = s.nextId := by
+    s.folderDelete.1.conns = s.conns ∧ s.folderDelete.1.nextId = s.nextId ∧
+    s.fileDelete.1.maxSessions = s.maxSessions ∧ s.fileCorrupt.1.maxSessions = s.maxSessions ∧
+    s.fileRepair.1.maxSessions = s.maxSessions ∧ s.folderDelete.1.maxSessions = s.maxSessions := by
   unfold Server.fileDelete Server.fileCorrupt Server.fileRepair Server.folderDelete
   cases s.file <;> cases s.folder <;> simp
 
-/-- Administrative changes (FTP client lifecycle / uninstall, service uninstall, backup-server configuration, a co-located
-database client) touch neither the connection table, nor the data, nor the password, nor the service's own states. -/
+/-- Administrative changes (FTP client lifecycle / restart / fix / scan / uninstall / re-install, service uninstall,
+backup-server configuration, a co-located database client) touch neither the connection table, nor the data, nor the
+password, nor the service's own states. -/
 theorem admin_frame (s : Server) (a : Admin) :
     (s.admin a).1.conns = s.conns ∧ (s.admin a).1.nextId = s.nextId ∧ (s.admin a).1.file = s.file ∧
     (s.admin a).1.password = s.password ∧ (s.admin a).1.op = s.op ∧ (s.admin a).1.health = s.health ∧
-    (s.admin a).1.node = s.node := by
+    (s.admin a).1.node = s.node ∧ (s.admin a).1.maxSessions = s.maxSessions := by
   cases a <;> unfold Server.admin <;> dsimp only <;> (repeat' split) <;> simp
 
-/-- How one event changes the connection table: only a `recv`. -/
-theorem apply_conns_nonrecv (s : Server) (e : SrvEv) (h : ∀ src p, e ≠ .recv src p) :
-    (e.apply s).conns = s.conns ∧ (e.apply s).nextId = s.nextId := by
+/-- File-system operations on downloads/ touch nothing but downloads/. -/
+theorem dl_frame (s : Server) (a : DlOp) :
+    (s.dl a).1 = { s with downloads := (s.dl a).1.downloads, dlFolder := (s.dl a).1.dlFolder } := by
+  cases a <;> unfold Server.dl <;> dsimp only <;> (repeat' split) <;> rfl
+
+/-- A re-install that is refused or raises changes nothing; one that goes through yields an EMPTY connection table and
+leaves the id counter alone (the new instance draws fresh uuids). -/
+theorem reinstall_frame (s : Server) (cfg : Option (Option Nat × Bool)) :
+    ((s.reinstall cfg).2 ≠ .done → (s.reinstall cfg).1 = s) ∧
+    ((s.reinstall cfg).2 = .done → (s.reinstall cfg).1.conns = [] ∧ s.file = none ∧
+      (s.reinstall cfg).1.file = some .good ∧ (s.reinstall cfg).1.maxSessions = 100) ∧
+    (s.reinstall cfg).1.nextId = s.nextId := by
+  unfold Server.reinstall
+  (repeat' split) <;> simp_all
+
+/-- How one event changes the connection table: only a `recv` (and a re-install of the service, which empties it). -/
+theorem apply_conns_nonrecv (s : Server) (e : SrvEv) (h : ∀ src p, e ≠ .recv src p) (h' : ∀ cfg, e ≠ .reinstall cfg) :
+    (e.apply s).conns = s.conns ∧ (e.apply s).nextId = s.nextId ∧ (e.apply s).maxSessions = s.maxSessions := by
   cases e with
   | recv src p => exact absurd rfl (h src p)
-  | req r => exact ⟨(request_frame s r).1, (request_frame s r).2.1⟩
-  | setPw pw => exact ⟨rfl, rfl⟩
-  | backup b pq big => exact ⟨(backup_frame s b pq big).1, (backup_frame s b pq big).2.1⟩
-  | restore b pq pr k => exact ⟨(restore_frame s b pq pr k).1, (restore_frame s b pq pr k).2.1⟩
-  | fileDelete => exact ⟨(file_frame s).1, (file_frame s).2.1⟩
-  | fileCorrupt => exact ⟨(file_frame s).2.2.1, (file_frame s).2.2.2.1⟩
-  | fileRepair => exact ⟨(file_frame s).2.2.2.2.1, (file_frame s).2.2.2.2.2.1⟩
-  | folderDelete => exact ⟨(file_frame s).2.2.2.2.2.2.1, (file_frame s).2.2.2.2.2.2.2⟩
-  | admin a => exact ⟨(admin_frame s a).1, (admin_frame s a).2.1⟩
-  | powerOn => exact ⟨(power_frame s).1, (power_frame s).2.1⟩
-  | powerOff => exact ⟨(power_frame s).2.2.2.1, (power_frame s).2.2.2.2.1⟩
-  | tick b t pq pr big k => exact ⟨(serverTick_frame s b t pq pr big k).1, (serverTick_frame s b t pq pr big k).2.1⟩
+  | reinstall cfg => exact absurd rfl (h' cfg)
+  | req r => exact ⟨(request_frame s r).1, (request_frame s r).2.1, (request_frame s r).2.2.2.2⟩
+  | setPw pw => exact ⟨rfl, rfl, rfl⟩
+  | backup b pq big => exact ⟨(backup_frame s b pq big).1, (backup_frame s b pq big).2.1, (backup_frame s b pq big).2.2.2.2⟩
+  | restore b pq pr k => exact ⟨(restore_frame s b pq pr k).1, (restore_frame s b pq pr k).2.1, (restore_frame s b pq pr k).2.2.2.2.2⟩
+  | fileDelete => exact ⟨(file_frame s).1, (file_frame s).2.1, (file_frame s).2.2.2.2.2.2.2.2.1⟩
+  | fileCorrupt => exact ⟨(file_frame s).2.2.1, (file_frame s).2.2.2.1, (file_frame s).2.2.2.2.2.2.2.2.2.1⟩
+  | fileRepair => exact ⟨(file_frame s).2.2.2.2.1, (file_frame s).2.2.2.2.2.1, (file_frame s).2.2.2.2.2.2.2.2.2.2.1⟩
+  | folderDelete => exact ⟨(file_frame s).2.2.2.2.2.2.1, (file_frame s).2.2.2.2.2.2.2.1, (file_frame s).2.2.2.2.2.2.2.2.2.2.2⟩
+  | admin a => exact ⟨(admin_frame s a).1, (admin_frame s a).2.1, (admin_frame s a).2.2.2.2.2.2.2⟩
+  | dl a =>
+    have hd := dl_frame s a
+    show (s.dl a).1.conns = s.conns ∧ (s.dl a).1.nextId = s.nextId ∧ (s.dl a).1.maxSessions = s.maxSessions
+    rw [hd]; exact ⟨rfl, rfl, rfl⟩
+  | powerOn => exact ⟨(power_frame s).1, (power_frame s).2.1, (power_frame s).2.2.2.2.2.2.1⟩
+  | powerOff => exact ⟨(power_frame s).2.2.2.1, (power_frame s).2.2.2.2.1, (power_frame s).2.2.2.2.2.2.2⟩
+  | tick b t pq pr big k =>
+    exact ⟨(serverTick_frame s b t pq pr big k).1, (serverTick_frame s b t pq pr big k).2.1, (serverTick_frame s b t pq pr big k).2.2.2⟩
 
 /-- **Lifecycle, power, fix, backup, restore and ticks never touch the connection table**: stop/start/pause/resume/
-restart/disable/enable/fix/compromise requests, node power events, file damage, backups, restores and ticks leave the
-table and the id counter exactly as they are (so an id issued before a stop or a power cycle is valid after it, and
-none appears or disappears by itself). -/
-theorem C17_table_changed_only_by_traffic (s : Server) (e : SrvEv) (h : ∀ src p, e ≠ .recv src p) :
-    (e.apply s).conns = s.conns ∧ (e.apply s).nextId = s.nextId := apply_conns_nonrecv s e h
+restart/disable/enable/fix/compromise/scan requests, node power events, file damage (database/ and downloads/), backups,
+restores, administrative changes and ticks leave the table, the id counter and the session limit exactly as they are (so
+an id issued before a stop or a power cycle is valid after it, and none appears or disappears by itself).  The one
+exception is a re-install of the service that goes through: the NEW instance starts with an empty table
+(`reinstall_frame`). -/
+theorem C17_table_changed_only_by_traffic (s : Server) (e : SrvEv) (h : ∀ src p, e ≠ .recv src p)
+    (h' : ∀ cfg, e ≠ .reinstall cfg) :
+    (e.apply s).conns = s.conns ∧ (e.apply s).nextId = s.nextId ∧ (e.apply s).maxSessions = s.maxSessions :=
+  apply_conns_nonrecv s e h h'
 
 /-- The tick that completes a fix makes the service GOOD and attempts the restore: afterwards the file is what a
 successful restore yields, or — when the restore fails — what it was. -/
 theorem C17_fix_completion (s : Server) (b : Backup) (pq pr k : Bool) (hf : s.health = .fixing) (hc : s.fixCd ≤ 1) :
     (s.tickFix b pq pr k).health = .good ∧
-    ((restoreBackup { s with health := .good, fixCd := 0 } b pq pr k).2 = false → (s.tickFix b pq pr k).file = s.file) := by
+    ((restoreBackup { s with health := .good, fixCd := 0 } b pq pr k).2 = false → (s.tickFix b pq pr k).file = s.file) ∧
+    ((restoreBackup { s with health := .good, fixCd := 0 } b pq pr k).2 = true → (s.tickFix b pq pr k).file = b.stored) := by
   unfold Server.tickFix
   simp only [hf, hc, if_true]
-  constructor
+  refine ⟨?_, ?_, ?_⟩
   · cases hr : (restoreBackup { s with health := .good, fixCd := 0 } b pq pr k).2 with
     | true =>
-      obtain ⟨h, _, hg, _⟩ := C17_restore_result _ b pq pr k hr
+      obtain ⟨h, _, _, hg, _⟩ := C17_restore_result _ b pq pr k hr
       exact hg
     | false =>
-      rw [C17_failed_restore_changes_nothing _ b pq pr k hr]
+      rw [(C17_failed_restore_changes_nothing _ b pq pr k hr).1]
   · intro hr
-    rw [C17_failed_restore_changes_nothing _ b pq pr k hr]
+    rw [(C17_failed_restore_changes_nothing _ b pq pr k hr).1]
+  · intro hr
+    exact (C17_restore_yields_backup _ b pq pr k hr).1
 
 /-- `recv` of a query never touches the table; of a disconnect only shrinks it; of a connect appends at most the
 fresh id. -/
@@ -752,6 +885,22 @@ theorem recv_conns (s : Server) (src : Nat) (p : Payload) :
         · exact ⟨Nat.le_refl _, fun c h => Or.inl (List.mem_filter.mp h).1⟩
         · exact ⟨Nat.le_refl _, fun c h => Or.inl h⟩
       · exact ⟨Nat.le_refl _, fun c h => Or.inl h⟩
+  | junk k =>
+    simp only [SrvEv.apply, Server.receive]
+    split <;> exact ⟨Nat.le_refl _, fun c h => Or.inl h⟩
+
+/-- A non-`recv` event keeps the id counter, and keeps the table or (a re-install that goes through) empties it. -/
+theorem apply_conns_keep_or_empty (s : Server) (e : SrvEv) (h : ∀ src p, e ≠ .recv src p) :
+    (e.apply s).nextId = s.nextId ∧ ((e.apply s).conns = s.conns ∨ (e.apply s).conns = []) := by
+  by_cases h' : ∃ cfg, e = .reinstall cfg
+  · obtain ⟨cfg, rfl⟩ := h'
+    have hf := reinstall_frame s cfg
+    refine ⟨hf.2.2, ?_⟩
+    by_cases hd : (s.reinstall cfg).2 = .done
+    · exact Or.inr (hf.2.1 hd).1
+    · left; show (s.reinstall cfg).1.conns = s.conns; rw [hf.1 hd]
+  · have := apply_conns_nonrecv s e h (fun cfg hc => h' ⟨cfg, hc⟩)
+    exact ⟨this.2.1, Or.inl this.1⟩
 
 /-- **Every connection in the table was admitted by a correctly authenticated connect.**  For every event whatsoever:
 a connection present afterwards was present before, or it is the fresh id, issued to the sender of a connect request
@@ -769,8 +918,9 @@ theorem C17_table_grows_only_by_authorised_connect (s : Server) (e : SrvEv) :
       subst hceq hp
       have := (C17_canAct_iff s).mp hca
       exact ⟨rfl, pw, rfl, hpw, this.1, this.2, hlen⟩
-  · have := apply_conns_nonrecv s e (fun src p h => hr ⟨src, p, h⟩)
-    rw [this.1] at hc; exact Or.inl hc
+  · rcases (apply_conns_keep_or_empty s e (fun src p h => hr ⟨src, p, h⟩)).2 with h | h
+    · rw [h] at hc; exact Or.inl hc
+    · rw [h] at hc; cases hc
 
 /-- Issued ids are below the counter, the counter never decreases, and ids in the table are pairwise distinct. -/
 def Server.WF (s : Server) : Prop := (∀ c ∈ s.conns, c.id < s.nextId) ∧ (s.conns.map (·.id)).Nodup
@@ -778,7 +928,7 @@ def Server.WF (s : Server) : Prop := (∀ c ∈ s.conns, c.id < s.nextId) ∧ (s
 theorem apply_nextId_mono (s : Server) (e : SrvEv) : s.nextId ≤ (e.apply s).nextId := by
   by_cases hr : ∃ src p, e = .recv src p
   · obtain ⟨src, p, rfl⟩ := hr; exact (recv_conns s src p).1
-  · rw [(apply_conns_nonrecv s e (fun src p h => hr ⟨src, p, h⟩)).2]; exact Nat.le_refl _
+  · rw [(apply_conns_keep_or_empty s e (fun src p h => hr ⟨src, p, h⟩)).1]; exact Nat.le_refl _
 
 theorem apply_WF (s : Server) (e : SrvEv) (h : s.WF) : (e.apply s).WF := by
   by_cases hr : ∃ src p, e = .recv src p
@@ -820,8 +970,15 @@ theorem apply_WF (s : Server) (e : SrvEv) (h : s.WF) : (e.apply s).WF := by
       | disconnect cid =>
         simp only [SrvEv.apply, Server.receive]
         (repeat' split) <;> first | exact h.2 | exact (List.Sublist.map _ List.filter_sublist).nodup h.2
-  · have := apply_conns_nonrecv s e (fun src p h => hr ⟨src, p, h⟩)
-    exact ⟨by rw [this.1, this.2]; exact h.1, by rw [this.1]; exact h.2⟩
+      | junk k =>
+        simp only [SrvEv.apply, Server.receive]
+        split <;> exact h.2
+  · have := apply_conns_keep_or_empty s e (fun src p h => hr ⟨src, p, h⟩)
+    rcases this.2 with hk | hk
+    · exact ⟨by rw [hk, this.1]; exact h.1, by rw [hk]; exact h.2⟩
+    · refine ⟨?_, ?_⟩
+      · rw [hk]; intro c hc; cases hc
+      · rw [hk]; exact List.nodup_nil
 
 /-- Well-formedness of the connection table along every operation sequence. -/
 theorem C17_table_wellformed_run (st : State) (ops : List Op) (h : st.srv.WF) : (run st ops).srv.WF :=
@@ -912,6 +1069,16 @@ theorem apply_compromised_persists (s : Server) (e : SrvEv) (hne : ¬ IsEscape e
     | disconnect cid =>
       simp only [SrvEv.apply, Server.receive]
       (repeat' split) <;> exact h
+    | junk k =>
+      simp only [SrvEv.apply, Server.receive]
+      split <;> exact h
+  | dl a => rw [show (SrvEv.dl a).apply s = (s.dl a).1 from rfl, dl_frame s a]; exact h
+  | reinstall cfg =>
+    -- a re-install goes through only while there is no live file: COMPROMISED data makes the constructor raise
+    have hf := reinstall_frame s cfg
+    by_cases hd : (s.reinstall cfg).2 = .done
+    · rw [(hf.2.1 hd).2.1] at h; cases h
+    · show (s.reinstall cfg).1.file = _; rw [hf.1 hd]; exact h
   | req r => rw [show (SrvEv.req r).apply s = (s.request r).1 from rfl, (request_frame s r).2.2.1]; exact h
   | setPw pw => exact h
   | backup b pq big => rw [show (SrvEv.backup b pq big).apply s = (backupDatabase s b pq big).1 from rfl, (backup_frame s b pq big).2.2.1]; exact h
@@ -922,7 +1089,7 @@ theorem apply_compromised_persists (s : Server) (e : SrvEv) (hne : ¬ IsEscape e
   | fileCorrupt => simp [SrvEv.apply, Server.fileCorrupt, h]
   | fileRepair => simp [SrvEv.apply, Server.fileRepair, h]
   | powerOn => rw [show SrvEv.powerOn.apply s = s.powerOn from rfl, (power_frame s).2.2.1]; exact h
-  | powerOff => rw [show SrvEv.powerOff.apply s = s.powerOff from rfl, (power_frame s).2.2.2.2.2]; exact h
+  | powerOff => rw [show SrvEv.powerOff.apply s = s.powerOff from rfl, (power_frame s).2.2.2.2.2.1]; exact h
   | tick b t pq pr big k => exact absurd trivial hne
 
 /-- Operations that cannot produce an escaping event. -/
@@ -958,6 +1125,10 @@ theorem keepsCompromised_no_escape (op : Op) (h : op.keepsCompromised = true) (e
   | hQuery hd q => exact not_escape_sql ha (by intro hq; subst hq; simp [Op.keepsCompromised] at h)
   | nQuery i q => exact not_escape_sql ha (by intro hq; subst hq; simp [Op.keepsCompromised] at h)
   | rawDisconnect i cid => exact not_escape_disc ha
+  | rawJunk i k => obtain ⟨j, k', rfl⟩ := ha; exact id
+  | dl a => simp only [OpAllows] at ha; subst ha; exact id
+  | svcInstall cfg => simp only [OpAllows] at ha; subst ha; exact id
+  | co k => exact absurd ha id
   | hDisconnect hd => exact not_escape_disc ha
   | nDisconnect i => exact not_escape_disc ha
   | uninstall i => exact not_escape_disc ha
@@ -1061,7 +1232,7 @@ theorem apply_unavailable (s : Server) (e : SrvEv) (h : s.canAct = false)
 
 /-- Operations by which clients (and red applications) talk to the server, plus backup and restore. -/
 def Op.isTraffic : Op → Bool
-  | .connect _ | .rawQuery _ _ _ | .rawDisconnect _ _ | .hQuery _ _ | .hDisconnect _ | .nConnect _ | .nQuery _ _
+  | .connect _ | .rawQuery _ _ _ | .rawDisconnect _ _ | .rawJunk _ _ | .hQuery _ _ | .hDisconnect _ | .nConnect _ | .nQuery _ _
   | .nDisconnect _ | .execute _ | .uninstall _ | .ransom _ _ | .backup _ | .restore _ _ | .dm _ _ _ _ _
   | .ransomReq _ _ => true
   | _ => false
@@ -1099,6 +1270,10 @@ theorem traffic_events (op : Op) (h : op.isTraffic = true) (e : SrvEv) (ha : OpA
     rcases ha with ha | ha
     · exact Or.inl (hc ha)
     · exact Or.inl (hq ha)
+  | rawJunk i k => obtain ⟨j, k', hj⟩ := ha; exact Or.inl ⟨j, _, hj⟩
+  | dl a => simp [Op.isTraffic] at h
+  | svcInstall cfg => simp [Op.isTraffic] at h
+  | co k => simp [Op.isTraffic] at h
   | folderDelete => simp [Op.isTraffic] at h
   | admin a => simp [Op.isTraffic] at h
   | bkDelete => simp [Op.isTraffic] at h
